@@ -974,6 +974,35 @@ def rule_update_registrations():
     return not failing, sites, failing
 
 
+def rule_no_name_order():
+    """C16.S.no_name_order: axis names carry no order - internal names (cse.<n>, unnamed.<uuid>, ellipsis suffixes) are numbered by set iteration order or drawn
+    at random, so no decision in the lowering may order or pick by name. Flags sorted()/.sort()/min()/max()/argmin/argmax/argsort calls over expressions that mention
+    `name`(s) in the solving and lowering layers; sites whose result only feeds an error message are listed with that reason."""
+    MESSAGE_ONLY = {("einx/_src/namedtensor/stage2/solve.py", "sorted(contradicting_axis_names)"): "feeds the text of the AxisSizeError only",
+                    ("einx/_src/namedtensor/stage3/solve.py", "sorted({str(x) for x in failed_axes})"): "feeds the text of the error only"}
+    sites, failing = [], []
+    for f in all_files():
+        r = rel(f)
+        if not (r.startswith("einx/_src/adapter/") or r.startswith("einx/_src/namedtensor/") or r in ("einx/_src/frontend/ops.py",)):
+            continue
+        t = ast.parse(open(f).read())
+        for n in ast.walk(t):
+            if not isinstance(n, ast.Call):
+                continue
+            fn = n.func.attr if isinstance(n.func, ast.Attribute) else n.func.id if isinstance(n.func, ast.Name) else None
+            if fn not in ("sorted", "sort", "min", "max", "argmin", "argmax", "argsort"):
+                continue
+            args_txt = " ".join(ast.unparse(a) for a in list(n.args) + [k.value for k in n.keywords])
+            if "name" not in args_txt.lower():
+                continue
+            txt = ast.unparse(n)
+            site = f"{r}:{n.lineno}:{txt[:80]}"
+            sites.append(site)
+            if (r, txt) not in MESSAGE_ONLY:
+                failing.append(site + " (orders or picks by axis name; names of internal axes depend on set iteration order / random identifiers)")
+    return not failing, sites, failing
+
+
 def rule_names():
     """C04.S.names: generated variable names are drawn from an iterator that filters out Python keywords and EVERY hinted name, and the set of
     hinted names is complete before the first name is drawn (it is built from name_hints up front, not while names are handed out)"""
